@@ -1,7 +1,7 @@
 (* pins: the full statement of every theorem of Props/C19.v *)
 From SV Require Import Store.Raw Store.RawRefine Store.Masked Store.StoreInv.
 From SV Require Import Unwind.Fault Unwind.UWorld Unwind.RelP Unwind.FaultBasics Unwind.CleanProps Unwind.StoreProps
-  Unwind.LedgerInv Unwind.UWorldProps Unwind.Summary Props.C19.
+  Unwind.LedgerInv Unwind.UWorldProps Unwind.Summary Unwind.ChangeSet Unwind.ChangeSetProps Props.C19.
 Check (C19_nofault_clear : forall hord ms c, hord = None \/ hord = Some [] ->
   m_clear_f hord ms (f_of c O) = (fst (m_clear ms c), f_of (snd (m_clear ms c)) O)).
 Check (C19_nofault_drop : forall ids ms c,
@@ -156,3 +156,25 @@ Check (C19_other_storages_untouched : forall orc w sid sid',
   NM.find sid' (uw_stores (fst (fst (ustep orc w (UDropStorage sid))))) = NM.find sid' (uw_stores w) /\
   (forall h, NM.find sid' (uw_stores (fst (fst (ustep orc w (URemove sid h))))) = NM.find sid' (uw_stores w)) /\
   (forall h v, NM.find sid' (uw_stores (fst (fst (ustep orc w (UInsert sid h v))))) = NM.find sid' (uw_stores w))).
+Check (C19_changeset_add : forall ms m id v f, MInvP csP ms m -> cs_shape ms -> f_pan f = false ->
+  let ms' := fst (cs_add_f ms id v f) in
+  let f' := snd (cs_add_f ms id v f) in
+  cs_shape ms' /\ cx_stuck (fx f') = cx_stuck (fx f) /\
+  match NM.find id m with
+  | Some old =>
+      MInvP csP ms' (NM.add id (fst old, (snd old + snd v)%Z) m) /\
+      cx_drops (fx f') = fst v :: cx_drops (fx f) /\ f_pan f' = Nat.eqb (f_arm f) 1 /\
+      (forall i t, own ms' (NM.add id (fst old, (snd old + snd v)%Z) m) i t ->
+         (own ms m i t /\ i <> id) \/ (i = id /\ t = (fst old, (snd old + snd v)%Z)))
+  | None =>
+      MInvP csP ms' (NM.add id v m) /\ cx_drops (fx f') = cx_drops (fx f) /\ f_pan f' = false /\
+      (forall i t, own ms' (NM.add id v m) i t -> (own ms m i t /\ i <> id) \/ (i = id /\ t = v))
+  end).
+Check (C19_changeset_no_double_drop : forall os, ndr (cs_hist_uids os) ->
+  ndr (snd (cs_run cs_init [] os)) /\
+  ndr (cx_drops (fx (cs_teardown (fst (cs_run cs_init [] os)))) ++ snd (cs_run cs_init [] os))).
+Check (C19_changeset_no_stale_read : forall os o, ndr (cs_hist_uids (os ++ [o])) ->
+  let s := fst (cs_run cs_init [] os) in
+  let L := snd (cs_run cs_init [] os) in
+  (forall t, In t (out_toks (snd (fst (cs_step s o)))) -> real (fst t) = true -> ~ In (fst t) L) /\
+  cx_stuck (fx (snd (cs_step s o))) = false).
